@@ -929,6 +929,21 @@ fn cli_records(args: &[&str], mode: &str, stdin: Option<&str>) -> Result<Vec<Val
   obs.records.iter().map(|r| serde_json::from_str::<Value>(r).map_err(|e| e.to_string())).collect()
 }
 
+/// standard output of a command, in the order printed
+fn cli_stdout(args: &[&str]) -> Result<String, String> {
+  let root = root_dir();
+  let argv: Vec<String> = args.iter().map(|s| s.to_string()).collect();
+  let cfg = SchedCfg { seed: 0, policy: Policy::Canonical, k: 1, forced: None, forced_picks: None, faults: vec![], hash_seed: 7 };
+  let out = cli_run::run_cli_full(&root, &argv, 7, Some(cfg), false, None);
+  let text = String::from_utf8(out.stdout.clone()).map_err(|e| format!("stdout is not UTF-8: {e}"))?;
+  if let (Err(e), None) = (&out.result, out.diagnostic_errors()) {
+    if text.trim().is_empty() {
+      return Err(format!("`{}` failed: {e}", args.join(" ")));
+    }
+  }
+  Ok(text)
+}
+
 /// (rule id, start line, end line, message) of a JSON record
 fn gh_key(v: &Value) -> String {
   format!(
@@ -970,7 +985,7 @@ pub fn frontends_check(w: &LspWorld, u: &UriSpec, text: &str) -> Result<Option<(
       }
     }
     // 2. the GitHub format lists the same findings (it omits hints)
-    let gh = cli_records(&["sg", "scan", "--format", "github", "-j", "1", &rel], "lines", None)?;
+    let gh = cli_stdout(&["sg", "scan", "--format", "github", "-j", "1", &rel])?;
     let mut want: Vec<String> = stream
       .iter()
       .filter(|r| r["severity"].as_str() != Some("hint"))
@@ -987,11 +1002,30 @@ pub fn frontends_check(w: &LspWorld, u: &UriSpec, text: &str) -> Result<Option<(
       })
       .collect();
     want.sort();
-    let mut got: Vec<String> = gh.iter().filter_map(|v| v.as_str().map(|s| s.to_string())).collect();
+    // a message with a line break spans several output lines: they belong to the annotation above
+    let mut got: Vec<String> = vec![];
+    for l in gh.split('\n').filter(|l| !l.is_empty()) {
+      let starts = ["::error ", "::warning ", "::notice "].iter().any(|p| l.starts_with(p));
+      match got.last_mut() {
+        Some(last) if !starts => {
+          last.push('\n');
+          last.push_str(l);
+        }
+        _ => got.push(l.to_string()),
+      }
+    }
     got.sort();
     FE_GITHUB.fetch_add(want.len() as u64, Ordering::Relaxed);
-    // a message with a line break spans several output lines: compare joined text then
-    if got != want && got.join("\n") != want.join("\n") {
+    // (blank lines inside a message are not told apart from the blank lines between lines)
+    let no_blank = |v: &mut Vec<String>| {
+      for x in v.iter_mut() {
+        *x = x.split('\n').filter(|l| !l.trim().is_empty()).collect::<Vec<_>>().join("\n");
+      }
+      v.sort();
+    };
+    no_blank(&mut got);
+    no_blank(&mut want);
+    if got != want {
       let d = got.iter().find(|g| !want.contains(g)).or(want.iter().find(|x| !got.contains(x))).cloned().unwrap_or_default();
       return Ok(Some(("GITHUB-FORMAT-DIFFERS".into(), format!("{}: `scan --format github` prints {} annotations, the JSON records call for {}; e.g. {}", u.rel, got.len(), want.len(), d))));
     }
